@@ -51,6 +51,10 @@ def gen_history(rng):
         if r < 0.12:
             ops.append(('new', rng.choice(tables) if rng.random() < 0.8 else gen.gen_table(rng, maxn=3)))
             ninst += 1   # upper bound: refused tables do not create an instance
+        elif r < 0.2:
+            # queries on texts that do not go through parse() of the harness: compared with a fresh instance only
+            ops.append((rng.choice(['validate_text', 'keys_text', 'unknown_text', 'equiv_text']), rng.randrange(ninst),
+                        rng.random() < 0.4, rng.choice(TEXTS), rng.choice(TEXTS)))
         elif r < 0.5 or nexpr_upper == 0:
             ops.append(('parse', rng.randrange(ninst), rng.random() < 0.3, rng.random() < 0.3, rng.random() < 0.3, rng.choice(TEXTS)))
             nexpr_upper += 1
@@ -131,8 +135,29 @@ def run_history(ops, le):
             else:
                 g = got
                 if g[0] == 2 and g[1][0] == 2:
-                    g = [2, [2, [enc_str(k) for k in make_licensing(tables[i]).unknown_license_keys(s, strict=st, simple=si)]]]
+                    try:
+                        g = [2, [2, [enc_str(k) for k in make_licensing(tables[i]).unknown_license_keys(s, strict=st, simple=si)]]]
+                    except le.ExpressionError as ex:
+                        # the used instance reported unknown keys where a fresh one refuses the text
+                        if not err:
+                            err = 'parse(%r) on a used Licensing reports unknown keys, a fresh one raises %r' % (s, str(ex)[:80])
                 obs.append([1, g])
+        elif kind in ('validate_text', 'keys_text', 'unknown_text', 'equiv_text'):
+            _, i, flag, s1, s2 = op
+            if i < len(insts):
+                L, F = insts[i], make_licensing(tables[i])
+                def ask(X):
+                    if kind == 'validate_text':
+                        info = X.validate(s1, strict=flag)
+                        return [info.normalized_expression, list(info.errors), list(info.invalid_symbols)]
+                    if kind == 'keys_text':
+                        return X.license_keys(s1, simple=flag)
+                    if kind == 'unknown_text':
+                        return X.unknown_license_keys(s1, simple=flag)
+                    return X.is_equivalent(s1, s2, simple=flag)
+                a, b = outcome_of(lambda: ask(L), lambda x: x), outcome_of(lambda: ask(F), lambda x: x)
+                if a != b and not err:
+                    err = '%s(%r, %r) on a used Licensing %r differs from a fresh one %r' % (kind, s1, flag, a, b)
         else:
             if kind in ('simplify', 'render'):
                 h = op[1]
@@ -197,6 +222,20 @@ def run(rep, tier, seed):
     rep.compared = 0
     n = 2500 if tier == 'thorough' else 250
     hist = [gen_history(rng) for _ in range(n)]
+    # directed: the same text asked twice of one instance under two different flag combinations (every ordered pair), and a
+    # text asked after one of its case / spacing variants
+    T0 = [('mit', [], False), ('GPL 2.0', ['GNU GPL v2', 'gplv2'], False), ('classpath', [], True)]
+    flags = [(va, st, si) for va in (False, True) for st in (False, True) for si in (False, True)]
+    sens = ['classpath', 'mit with classpath', 'classpath with mit', 'x with mit', 'gplv2 or foo', 'mit or gnu gpl v2', 'foo', 'mit with']
+    for s_ in sens:
+        for f1 in flags:
+            for f2 in flags:
+                if f1 != f2:
+                    hist.append([('new', T0), ('parse', 0) + f1 + (s_,), ('parse', 0) + f2 + (s_,)])
+    for a, b in (('foo', 'FOO'), ('mit  or foo', 'mit or foo'), ('gplv2', 'GPLV2'), ('MIT', 'mit')):
+        for f1 in flags:
+            hist.append([('new', T0), ('parse', 0) + f1 + (a,), ('parse', 0) + f1 + (b,)])
+            hist.append([('new', T0), ('parse', 0) + f1 + (b,), ('parse', 0) + f1 + (a,)])
     results = [run_history(h, le) for h in hist]
     res = run_model([(17, r[2]) for r in results], chunk=100)
     rep.trail = []
